@@ -64,6 +64,21 @@ pub(crate) fn any_parser(state: State, cur_param: usize) -> Parser {
     p
 }
 
+/// field-by-field copy / comparison (Parser is neither Clone nor PartialEq)
+pub(crate) fn copy_parser(a: &Parser, b: &mut Parser) {
+    b.state = a.state;
+    b.cur_param = a.cur_param;
+    b.intermediate = a.intermediate;
+    for i in 0..PARAMS_LEN {
+        b.params[i] = a.params[i].clone();
+    }
+}
+pub(crate) fn same_parser(a: &Parser, b: &Parser) -> bool {
+    let i = any_usize();
+    assume(i < PARAMS_LEN);
+    a.state == b.state && a.cur_param == b.cur_param && a.intermediate == b.intermediate && a.params[i] == b.params[i]
+}
+
 /// InvP, asserted at witness indices
 fn assert_inv_p(p: &Parser, tag_c01: bool) {
     let _ = tag_c01;
